@@ -158,6 +158,34 @@ def run_monitor(ws, pkg, prop, tier, seed, logf, args=(), timeout=1800, binname=
     return s, v
 
 
+def run_cargotest(ws, pkg, test, prop, tier, seed, logf, timeout=3600, extra_env=None, replay=None):
+    """Run a #[test]-hosted monitor (simulator-driven checks). The test prints the usual JSON lines."""
+    wsdir, tgt = workspace_dir(ws)
+    env = base_env()
+    env["RUSTFLAGS"] = GUARD_CFG
+    env["CARGO_TARGET_DIR"] = tgt
+    env["VERIF_PROP"] = prop
+    env["VERIF_TIER"] = tier
+    env["VERIF_SEED"] = str(seed)
+    env["VERIF_REPLAY"] = replay or ""
+    env["BOLERO_RANDOM_SEED"] = str(seed)
+    if extra_env:
+        env.update(extra_env)
+    cmd = ["cargo", TOOLCHAIN, "test", "--release", "--offline", "-p", pkg, "--lib", "--", test, "--exact",
+           "--nocapture", "--test-threads", "1"]
+    rc, out = run_logged(cmd, wsdir, env, logf, timeout)
+    with open(logf, "a") as lf:
+        lf.write(out[-20000:])
+    s, v = parse_lines(out)
+    if "running 0 tests" in out and not s:
+        raise Inconclusive("test %s not found in %s" % (test, pkg))
+    if rc != 0 and not v:
+        raise Inconclusive("cargo test %s::%s exited rc=%d without a violation line (see %s)" % (pkg, test, rc, logf))
+    if not s and not replay:
+        raise Inconclusive("test %s printed no summary (see %s)" % (test, logf))
+    return s, v
+
+
 def run_miri(ws, pkg, prop, seed, logf, shards=4, args=(), timeout=2400, many_seeds=None,
              binname=None):
     """Run a monitor under Miri with the 'miri' budget, sharded over processes. Any Miri
